@@ -442,7 +442,47 @@ class IKRun:
                 arm.FK(np.array(st["theta"], float), bool(st.get("protect", False)))
             elif op == "move":
                 info["ee0"] = np.array(arm.getEEPos().gTM(), float).copy()
-                arm.move(tm(list(st["base"])), bool(st.get("stationary", False)))
+                if st.get("stationary"):
+                    # move(stationary=True) keeps the tool in place by an internal IK call.  move() returns nothing, so that
+                    # call is observed at the method seam (instance-level wrappers, outermost call only) and judged below like
+                    # any other IK call: what it *reported* decides what the arm owes afterwards.
+                    info["inner"] = inner = []
+                    depth = [0]
+
+                    def _wrap(name):
+                        orig = getattr(arm, name)
+
+                        def w(*a, **k):
+                            g = a[0] if a else k.get("goal_position")
+                            rec = None
+                            if depth[0] == 0 and g is not None and hasattr(g, "gTM"):
+                                rec = {"op": "IK" if name == "IK" else "cIK", "G": np.array(g.gTM(), float).copy(), "goal_obj": g,
+                                       "args": (a, k), "pre_coherent": self.coherent() <= 1e-7,
+                                       "pre_theta": np.array(arm._theta, float).copy(),
+                                       "mins": np.array(arm.joint_mins, float).copy(), "maxs": np.array(arm.joint_maxs, float).copy(),
+                                       "pos_tol": float(arm.pos_tolerance), "rot_tol": float(arm.rot_tolerance)}
+                            depth[0] += 1
+                            try:
+                                r = orig(*a, **k)
+                            finally:
+                                depth[0] -= 1
+                            if rec is not None:
+                                rec["ret"] = r
+                                inner.append(rec)
+                            return r
+                        setattr(arm, name, w)
+                    _wrap("IK")
+                    _wrap("constrainedIK")
+                    try:
+                        arm.move(tm(list(st["base"])), True)
+                    finally:
+                        for name in ("IK", "constrainedIK"):
+                            try:
+                                delattr(arm, name)
+                            except AttributeError:
+                                pass
+                else:
+                    arm.move(tm(list(st["base"])), False)
             elif op == "home":
                 cur = arm.getEEPos()
                 arm.setArbitraryHome(cur @ tm(list(st["rel"])))
@@ -494,8 +534,11 @@ class IKRun:
                         raise Violation("K-fail-coherent", "move(stationary=True): the internal IK left the arm incoherent: reported "
                                         "tool pose differs from FK(stored joints) by %.3e" % dev,
                                         {"op": "move", "path": "constrained", "check": True})
-                    # the internal solve either succeeded (the tool is where it was, within the tolerances) or failed with
-                    # restarts exhausted (the arm is reset to the zero vector clamped into the limits): nothing else
+                    # Which coherent configuration follows an internal solve that *reported failure* is the library's choice
+                    # (this tree resets to the zero vector clamped into the limits; restoring the previous joints or parking
+                    # mid-range are equally coherent -- review 2, A3/A4).  What the internal solve *reported* is judged like any
+                    # other IK call: a reported success must have reached the pose it was given, inside the limits, and be the
+                    # arm's state.
                     S__, M__ = self.geom()
                     stored = np.array(arm._theta, float).reshape(-1)
                     kept = False
@@ -504,15 +547,23 @@ class IKRun:
                         if a_ <= float(arm.rot_tolerance) * (1 + 1e-6) + ANG_BLIND and min(l_) <= float(arm.pos_tolerance) * (1 + 1e-6) + 1e-9:
                             kept = True
                             break
-                    reset = np.minimum(np.maximum(np.zeros(len(stored)), np.array(arm.joint_mins, float)), np.array(arm.joint_maxs, float))
-                    if kept:
-                        self.probes["move_stationary_kept_tool_pose"] += 1
-                    elif ang_diff(stored, reset) <= 1e-9:
-                        self.probes["move_stationary_reset_arm"] += 1
-                    else:
-                        raise Violation("K-state", "move(stationary=True): afterwards the tool is neither where it was (off by %.3e rad / "
-                                        "%.3e) nor is the arm in the reset configuration: the internal IK claimed a pose it had not reached" % (
-                                            a_, min(l_)), {"op": "move", "path": "constrained", "check": True})
+                    self.probes["move_stationary_kept_tool_pose" if kept else "move_stationary_gave_up_coherently"] += 1
+                    for rec in info.get("inner", [])[-1:]:
+                        a, k = rec["args"]
+                        names = ["goal_position", "theta_init", "check", "level", "max_iters", "protect"]
+                        kw = dict(zip(names, a))
+                        kw.update(k)
+                        st_in = {"op": rec["op"], "goal": {"k": "matrix", "T": rec["G"].tolist()}, "check": bool(kw.get("check", True)),
+                                 "level": kw.get("level", 6), "max_iters": kw.get("max_iters", 30),
+                                 "protect": bool(kw.get("protect", False)) if rec["op"] == "IK" else False}
+                        th0 = kw.get("theta_init")
+                        info_in = dict(rec, reachable=None, start=None if th0 is None else np.array(th0, float).reshape(-1).copy(),
+                                       model_changed=None)
+                        self.probes["move_stationary_internal_ik_judged"] += 1
+                        try:
+                            self._oracle(st_in, rec["ret"], None, info_in, len(draws))
+                        except Violation as v:
+                            raise Violation(v.clause, "inside move(stationary=True): " + v.message, v.detail)
         try:
             th_ = np.asarray(arm._theta, float).reshape(-1)
             inl = bool(np.all(th_ >= np.asarray(arm.joint_mins, float) - 1e-12) and np.all(th_ <= np.asarray(arm.joint_maxs, float) + 1e-12))
@@ -541,9 +592,12 @@ class IKRun:
             if st.get("local") and op != "IKFree":
                 ok_pre = self._local_applicable(st, info)
                 if ok_pre:
+                    # (a library that reports a total failure by raising fails for the same numerical reasons as one that
+                    # returns False: the explanations of the two K-local known findings are computed here too -- review 2, A2')
+                    expl = self._local_explanations(st, info, path, info["G"], info["pos_tol"], info["rot_tol"])
                     raise Violation("K-local", "%s (%s path) started %.4f rad from an in-limit, non-singular solution and "
                                     "raised %s: %s" % (op, path, ok_pre[0], type(exc).__name__, exc),
-                                    dict(sig, exception=type(exc).__name__))
+                                    dict(sig, exception=type(exc).__name__, max_iters=st.get("max_iters", 30), **expl))
             # A raise reports nothing -- but the arm must not be left *claiming* something either: if its reported tool pose
             # was the pose of its stored joints before the call, it still is after a call that gave up by raising (a raise
             # between "remember the goal as the reported pose" and "commit the joints" leaves it claiming an unreached pose,
@@ -607,16 +661,25 @@ class IKRun:
                 # (on the unconstrained path the kernel judged its own, not yet wrapped, output)
                 th_judged = self.raw_free_theta if (path == "free" and self.raw_free_theta is not None
                                                     and len(self.raw_free_theta) == len(theta)) else theta
-                lib_w = fm.se3ToVec(fm.MatrixLog6(np.array(fm.TransInv(self.fk(th_judged)) @ G)))[0:3]
+                E_lib = np.array(fm.TransInv(self.fk(th_judged)) @ G)
+                lib_w = fm.se3ToVec(fm.MatrixLog6(E_lib))[0:3]
                 lib_ang = float(np.linalg.norm(lib_w))
+                # the half-turn finding is the *general* branch of MatrixLog3 met with (trace-1)/2 a rounding error above -1;
+                # at or below -1 the library's dedicated pi branch answers, and a wrong answer there is something else
+                lib_acos_above_m1 = bool((float(np.trace(E_lib[:3, :3])) - 1.0) / 2.0 > -1.0)
             except Exception:
                 lib_ang = float("nan")
+                lib_acos_above_m1 = False
             rb = self.reach()
             excess = max(ang - rot_tol, (min(lin) - pos_tol) / max(rb[1] if rb else 10.0, 1.0), 0.0)
             detail = dict(sig, rot_tol=rot_tol, pos_tol=pos_tol, ang=ang, lin=min(lin), restarts=restarts,
                           reachable=info["reachable"], raw_free_max=self.raw_free_max,
                           prismatic_wrapped=self._prismatic_wrapped(path),
                           lib_ang_ok=bool(lib_ang <= rot_tol * (1 + 1e-6) + 1e-12), ang_from_pi=abs(ang - math.pi),
+                          lib_acos_above_m1=lib_acos_above_m1,
+                          # (K-reach-rot is raised before the position is judged: a tolerated rotation finding must not carry
+                          # a position miss with it; the slack is the blind zone's own lever effect)
+                          pos_ok=bool(min(lin) <= pos_tol * (1 + 1e-6) + 3e-7 * max(rb[1] if rb else 10.0, 1.0)),
                           wrap_explains=bool(excess <= self.raw_free_max * 4e-15))
             if self.raw_free_max >= 1e4:
                 P["free_solver_returned_huge_angles"] += 1
@@ -688,36 +751,11 @@ class IKRun:
             if ok_pre:
                 P["local_clause_applicable"] += 1
                 if not success:
-                    # where did the failed solve stop?  The blind-zone finding explains a stagnation a hair's breadth from
-                    # the goal (rotation invisible to the log, position error = lever x that rotation) and nothing else.
-                    try:
-                        # judge the FIRST attempt (the returned vector may be a later restart's): the kernels are pure
-                        fm_ = _load()["fmr"]
-                        S__, M__ = self.geom()
-                        if path == "free":
-                            th1, _ = fm_.IKinSpace(S__, M__, np.array(G), info["start"].copy(), rot_tol, pos_tol,
-                                                   max_iters=int(st.get("max_iters", 30)))
-                        else:
-                            th1, _ = fm_.IKinSpaceConstrained(S__.copy(), M__.copy(), np.array(G), info["start"].copy(), pos_tol, rot_tol,
-                                                              info["mins"], info["maxs"], int(st.get("max_iters", 30)))
-                        a_f, l_f = pose_errors(self.fk(th1), G)
-                        rb = self.reach()
-                        blind = bool(a_f <= 1e-7 and min(l_f) <= 3e-7 * max(rb[1] if rb else 10.0, 1.0))
-                        # the other explanation: the solution has a joint at (numerically) zero.  FKinSpace drops the
-                        # rotation of a joint below 1e-6 rad (NearZero), so the pose jumps by up to 1e-6 rad x lever as
-                        # the iterate crosses that band and Newton's method oscillates there at a few 1e-6
-                        ts_ = np.array(g["theta"], float)
-                        tsw = (ts_ + math.pi) % (2 * math.pi) - math.pi
-                        nearzero = bool(np.any(np.abs(tsw) < 1e-6) and a_f <= 2e-5
-                                        and min(l_f) <= 2e-5 * max(rb[1] if rb else 10.0, 1.0))
-                    except Exception:
-                        blind = False
-                        nearzero = False
+                    expl = self._local_explanations(st, info, path, G, pos_tol, rot_tol)
                     raise Violation("K-local", "%s (%s path) started %.4f rad (2-norm) from an in-limit, non-singular solution "
                                     "(sigma_min %.3f, margin %.3f rad) and reported failure (max_iters=%d, tolerances %.1e/%.1e)" % (
                                         op, path, ok_pre[0], ok_pre[1], ok_pre[2], st.get("max_iters", 30), pos_tol, rot_tol),
-                                    dict(sig, max_iters=st.get("max_iters", 30), min_tol=min(pos_tol, rot_tol), blind_explains=blind,
-                                         nearzero_explains=nearzero))
+                                    dict(sig, max_iters=st.get("max_iters", 30), **expl))
         # reach probes / classes
         if pos_tol > rot_tol:
             P["tol_pos_gt_rot"] += 1
@@ -728,6 +766,8 @@ class IKRun:
             P["goal_beyond_reach"] += 1
         if self.trace["config"]["arm"].get("prismatic") and any(self.trace["config"]["arm"]["prismatic"]):
             P["arm_with_prismatic_joint"] += 1
+        if g["k"] == "halfturn" and st.get("start") is not None:
+            P["goal_half_turn_from_start"] += 1
         if g["k"] == "current":
             P["goal_is_current_reported_pose"] += 1
             if not info["pre_coherent"]:
@@ -816,6 +856,35 @@ class IKRun:
                             {"op": st["op"], "path": "free" if st.get("protect") else ("ikfree" if st["op"] == "IKFree" else "constrained"),
                              "alias": "goal"})
         self.probes["goal_object_moved_by_caller"] += 1
+
+    def _local_explanations(self, st, info, path, G, pos_tol, rot_tol):
+        """Where did the failed near-start solve stop?  Two findings of the unchanged library explain a stop a hair's breadth
+        from the goal and nothing else: the log's blind zone (rotation invisible, position error = lever x that rotation) and the
+        NearZero band of FKinSpace around a solution joint at zero (the pose jumps by up to 1e-6 rad x lever as the iterate
+        crosses the band, Newton oscillates at a few 1e-6).  The FIRST attempt is judged (the kernels are pure)."""
+        blind = nearzero = False
+        try:
+            fm_ = _load()["fmr"]
+            S__, M__ = self.geom()
+            if path == "free":
+                th1, _ = fm_.IKinSpace(S__, M__, np.array(G), info["start"].copy(), rot_tol, pos_tol,
+                                       max_iters=int(st.get("max_iters", 30)))
+            else:
+                th1, _ = fm_.IKinSpaceConstrained(S__.copy(), M__.copy(), np.array(G), info["start"].copy(), pos_tol, rot_tol,
+                                                  info["mins"], info["maxs"], int(st.get("max_iters", 30)))
+            a_f, l_f = pose_errors(self.fk(th1), G)
+            rb = self.reach()
+            lever = max(rb[1] if rb else 10.0, 1.0)
+            blind = bool(a_f <= 1e-7 and min(l_f) <= 3e-7 * lever)
+            ts_ = np.array(st["goal"]["theta"], float)
+            tsw = (ts_ + math.pi) % (2 * math.pi) - math.pi
+            # the unchanged library fails this way only when a tolerance is inside the jump itself (1e-6 rad, 1e-6 x lever)
+            # and then stops within a few 1e-6 of the goal (4e-6 measured): both are part of the identity of the finding
+            nearzero = bool(np.any(np.abs(tsw) < 1e-6) and (rot_tol <= 2e-6 or pos_tol <= 2e-6 * lever)
+                            and a_f <= 5e-6 and min(l_f) <= 5e-6 * lever)
+        except Exception:
+            pass
+        return {"min_tol": min(pos_tol, rot_tol), "blind_explains": blind, "nearzero_explains": nearzero}
 
     def _local_applicable(self, st, info):
         g = st["goal"]
@@ -940,7 +1009,8 @@ def gen_trace(seed):
         n, mins, maxs = arm_info(spec.get("file", "6R"), {k: v for k, v in spec.items() if k != "base"})
         mins, maxs = mins.copy(), maxs.copy()
     # swarm
-    tol_mode = pick_weighted(r, [("default", 2.0), ("independent", 4.0), ("pos_loose", 1.5), ("rot_loose", 1.5), ("loose", 2.0)])
+    tol_mode = pick_weighted(r, [("default", 2.0), ("independent", 4.0), ("pos_loose", 1.5), ("rot_loose", 1.5), ("loose", 2.0),
+                                 ("fine", 0.8)])
     p_protect = r.choice([0.0, 0.3, 0.3, 1.0])
     iters_mode = pick_weighted(r, [("tiny", 1.5), ("small", 2.0), ("mid", 2.0), ("generous", 3.0)])
     restart_mode = pick_weighted(r, [("natural", 3.0), ("scripted", 4.0), ("off", 1.5)])
@@ -961,6 +1031,8 @@ def gen_trace(seed):
             return None
         if tol_mode == "independent":
             return {"op": "tol", "pos": float("%.3g" % log_uniform(ro, 1e-9, 1e-2)), "rot": float("%.3g" % log_uniform(ro, 1e-9, 1e-2))}
+        if tol_mode == "fine":      # around the scale of the library's own cut-offs (NearZero 1e-6, eps 1e-6 .. default 1e-5)
+            return {"op": "tol", "pos": float("%.3g" % log_uniform(ro, 1e-6, 3e-5)), "rot": float("%.3g" % log_uniform(ro, 1e-6, 3e-5))}
         if tol_mode == "loose":     # coarse tolerances: attempts that end "almost there" are common
             return {"op": "tol", "pos": float("%.3g" % log_uniform(ro, 1e-3, 1e-1)), "rot": float("%.3g" % log_uniform(ro, 1e-3, 1e-1))}
         if tol_mode == "pos_loose":
@@ -996,6 +1068,12 @@ def gen_trace(seed):
             if ro.random() < 0.1:
                 # joint angles on multiples of pi/2: aligned axes, singular configurations, tool rotations near pi
                 th = [min(max(round(x / (math.pi / 2)) * (math.pi / 2), mins[j]), maxs[j]) for j, x in enumerate(th)]
+            elif ro.random() < 0.15:
+                # one or two joints at exactly zero: the solution sits in the middle of FKinSpace's NearZero band (|angle| <
+                # 1e-6 is treated as no rotation), where the pose the solver evaluates is discontinuous
+                for j in ro.sample(range(n), min(n, ro.randint(1, 2))):
+                    if mins[j] <= 0.0 <= maxs[j]:
+                        th[j] = 0.0
             return {"k": "fk", "theta": [round(x, 6) for x in th]}, th
         if k == "boundary":
             th = in_limits(1.0)
@@ -1135,6 +1213,9 @@ def gen_trace(seed):
             t2 = tol_step()
             if t2:
                 steps.append(t2)
+    # A violation ends a history -- also one that the known-findings file then tolerates.  Goals half a turn from the start hit
+    # the half-turn finding in every second call, so they go last: nothing generated after them is lost (review 2).
+    steps = [x for x in steps if x.get("goal", {}).get("k") != "halfturn"] + [x for x in steps if x.get("goal", {}).get("k") == "halfturn"]
     return {"property": PROP, "config": {"arm": spec, "swarm": {"tol": tol_mode, "iters": iters_mode, "restarts": restart_mode,
                                                               "p_protect": p_protect, "campaign": campaign}}, "steps": steps}
 
@@ -1157,7 +1238,7 @@ RULE = ("One run = one arm (5 bundled URDFs, the 6R test arm, random 1-7-joint r
         "history of 1-10 operations over {IK, constrainedIK, IKFree, FK, move(+stationary), setArbitraryHome, restoreOriginalEE, "
         "setJointProperties, tolerance change} under a simulator-owned PRNG whose restart draws are uniform or scripted "
         "(near-solution at a chosen restart index, far, edge, zero). Goals: FK of in-limit vectors, vectors on the limit boundary, "
-        "poses beyond a rigorous reach bound, arbitrary poses. Non-trivial = the run contained at least one IK-family call that "
+        "poses beyond a rigorous reach bound, arbitrary poses, the arm's own reported pose, the start pose turned by half a turn. Non-trivial = the run contained at least one IK-family call that "
         "returned; distinct = distinct event-log digest. states = distinct abstract arm states after a step (arm, #joints, base, "
         "coherent?, stored joints inside limits?, moved/re-tooled?, tolerance order, last op); transitions = distinct solve classes (arm, path, outcome, restart index "
         "of success, check flag, first draw-script kind, tolerance order, goal kind).")
@@ -1177,7 +1258,8 @@ EXPECTED_PROBES = ["success_first_attempt", "success_on_restart", "success_on_re
                    "unreachable_goal_reported_failure", "solve_after_move_or_retool", "start_from_current_state",
                    "local_clause_applicable", "move_stationary_internal_ik", "goal_is_current_reported_pose",
                    "goal_is_stale_reported_pose", "arm_with_prismatic_joint", "returned_vector_edited_by_caller", "goal_object_moved_by_caller",
-                   "limits_changed_assign", "limits_changed_inplace", "move_stationary_kept_tool_pose", "move_stationary_reset_arm"]
+                   "limits_changed_assign", "limits_changed_inplace", "move_stationary_kept_tool_pose", "move_stationary_gave_up_coherently",
+                   "move_stationary_internal_ik_judged", "goal_half_turn_from_start", "raise_left_arm_coherent"]
 
 
 def warmup():
@@ -1339,7 +1421,7 @@ def signature(trace, violation):
     last = trace["steps"][-1] if trace["steps"] else {}
     return {"clause": violation.clause, "op": d.get("op", last.get("op")), "path": d.get("path"), "ang": d.get("ang"),
             "rot_tol": d.get("rot_tol"), "raw_free_max": d.get("raw_free_max"), "lin": d.get("lin"), "min_tol": d.get("min_tol"),
-            "lib_ang_ok": d.get("lib_ang_ok"), "ang_from_pi": d.get("ang_from_pi"), "wrap_explains": d.get("wrap_explains"), "blind_explains": d.get("blind_explains"), "nearzero_explains": d.get("nearzero_explains"),
+            "lib_ang_ok": d.get("lib_ang_ok"), "ang_from_pi": d.get("ang_from_pi"), "lib_acos_above_m1": d.get("lib_acos_above_m1"), "pos_ok": d.get("pos_ok"), "wrap_explains": d.get("wrap_explains"), "blind_explains": d.get("blind_explains"), "nearzero_explains": d.get("nearzero_explains"),
             "prismatic_wrapped": d.get("prismatic_wrapped"),
             "arm": d.get("arm"), "exception": d.get("exception"), "check": last.get("check"),
             "n_steps": len(trace["steps"]), "reachable": d.get("reachable")}
